@@ -257,6 +257,10 @@ def run_case(c):
         for r in range(c['count']):
             m, n = int(rng.integers(1, 25)), int(rng.integers(1, 25))
             q0, q1 = h.rand_charges(rng, m, n, c['style'])
+            if r % 7 == 5:
+                # charges are 64-bit integers: labels beyond 2^53 (not representable as doubles) are as good as small ones
+                off = (2 ** 53 + 1, -(2 ** 53) - 3, 2 ** 62 - 7)[r % 3]
+                q0 = np.asarray(q0, dtype=np.int64) + np.int64(off); q1 = np.asarray(q1, dtype=np.int64) + np.int64(off)
             if c['source'].startswith('entries_'):
                 A = h.masked_matrix(rng, q0, q1, c['source'][8:])
                 if A.dtype.kind in 'iu':
